@@ -192,6 +192,10 @@ def run(ck: core.Check):
     for _ in range(n_prog):
         prog = lf.gen_program(rng)
         reqs = [lf.gen_request(rng, prog, allow_dup=(rng.random() < 0.15)) for _ in range(3)]
+        if rng.random() < 0.3:
+            odd = lf.gen_odd_request(rng, prog)
+            if odd is not None:
+                reqs.insert(rng.randrange(len(reqs) + 1), odd)
         # the requests of one program form a history over the same Vars (nothing is reset in between);
         # most programs also get a directed pair: a build failing inside the block, then a request that
         # must raise KeyError unless the failed build left names behind
@@ -264,8 +268,9 @@ def run(ck: core.Check):
                                        "before": list(done_here),
                                        "prelude": [{"prog": p_, "reqs": rs_} for p_, rs_ in recent[-2:]]})
             done_here.append(req)
-            # correspondence
-            if m is not None:
+            # correspondence (requests with empty / non-string names are outside the model: oracle and C12 only)
+            modelled = all(isinstance(n_, str) and n_ != "" for n_, _ in req["inputs"] + req["outputs"])
+            if m is not None and modelled:
                 if "error" in m:
                     ok = False
                 elif got[0] == "ok":
